@@ -54,6 +54,33 @@ func c10FailureLayout(code FailCode) []string {
 	return nil
 }
 
+// c10SpliceWireRecord merges r into the TLV tail of an encoded message (or
+// appends it when there is none).
+func c10SpliceWireRecord(enc []byte, r c10ref.Rec) []byte {
+	tail, recs := c10ref.FindTLVTail(enc, 2)
+	if tail < 0 {
+		return c10ref.AppendRecord(append([]byte(nil), enc...), r.Type,
+			r.Val)
+	}
+	var out []c10ref.Rec
+	placed := false
+	for _, x := range recs {
+		if !placed && x.Type > r.Type {
+			out = append(out, r)
+			placed = true
+		}
+		if x.Type == r.Type {
+			placed = true
+		}
+		out = append(out, x)
+	}
+	if !placed {
+		out = append(out, r)
+	}
+
+	return append(append([]byte(nil), enc[:tail]...), c10ref.Encode(out)...)
+}
+
 // c10GenFailureMessage draws the bytes of a failure message (code + payload).
 func c10GenFailureMessage(t *rapid.T) ([]byte, []string) {
 	codes := c10FailCodes()
@@ -66,7 +93,7 @@ func c10GenFailureMessage(t *rapid.T) ([]byte, []string) {
 		labels = append(labels, "code=random")
 	} else {
 		x := rapid.Uint32().Draw(t, "codeSel")
-		code = codes[int(uint64(x)*2654435761>>7%uint64(len(codes)))]
+		code = codes[int(c10Mix(x)%uint32(len(codes)))]
 		labels = append(labels, "code="+code.String())
 	}
 	b := binary.BigEndian.AppendUint16(nil, uint16(code))
@@ -92,7 +119,8 @@ func c10GenFailureMessage(t *rapid.T) ([]byte, []string) {
 		case "tlv":
 			if rapid.Bool().Draw(t, "withTlv") {
 				b = c10ref.AppendRecord(b, c10DrawUnknownType(t),
-					c10Bytes(t, rapid.IntRange(0, 20).Draw(t, "tN"), "tV"))
+					c10Bytes(t, rapid.SampledFrom([]int{0, 1, 4, 20, 240,
+						300}).Draw(t, "tN"), "tV"))
 			}
 		case "raw":
 			b = append(b, c10Bytes(t, rapid.IntRange(0, 64).Draw(t, "rN"),
@@ -105,12 +133,17 @@ func c10GenFailureMessage(t *rapid.T) ([]byte, []string) {
 			switch shape {
 			case "prefixed", "bare":
 				m := (&ChannelUpdate1{}).RandTestMessage(t)
-				if rapid.IntRange(0, 2).Draw(t, "updUnknown") == 0 {
-					c10InjectUnknown(t, m)
-				}
 				enc, err := c10Write(m)
 				if err != nil {
 					t.Fatalf("channel_update: %v", err)
+				}
+				if rapid.IntRange(0, 2).Draw(t, "updUnknown") == 0 {
+					// an unknown record on the wire (Encode itself
+					// would not emit it)
+					enc = c10SpliceWireRecord(enc, c10ref.Rec{
+						Type: c10DrawUnknownType(t),
+						Val:  c10Bytes(t, 4, "updU"),
+					})
 				}
 				upd = enc
 				if shape == "bare" {
@@ -168,9 +201,13 @@ func c10DecodeFailureMessage(t c10TB, b []byte) (FailureMessage, error) {
 				c10Head(b))
 		}
 	}()
-	before := c10AllocNow()
-	m, err := DecodeFailureMessage(bytes.NewReader(b), 0)
-	alloc := c10AllocNow() - before
+	var (
+		m   FailureMessage
+		err error
+	)
+	alloc := c10Measure(func() {
+		m, err = DecodeFailureMessage(bytes.NewReader(b), 0)
+	})
 	if alloc > c10AllocCap {
 		t.Fatalf("DecodeFailureMessage of %d bytes allocated %d bytes",
 			len(b), alloc)
@@ -185,9 +222,13 @@ func c10DecodeFailure(t c10TB, b []byte) (FailureMessage, error) {
 			t.Fatalf("DecodeFailure panicked: %v\ninput=%x", r, c10Head(b))
 		}
 	}()
-	before := c10AllocNow()
-	m, err := DecodeFailure(bytes.NewReader(b), 0)
-	alloc := c10AllocNow() - before
+	var (
+		m   FailureMessage
+		err error
+	)
+	alloc := c10Measure(func() {
+		m, err = DecodeFailure(bytes.NewReader(b), 0)
+	})
 	if alloc > c10AllocCap {
 		t.Fatalf("DecodeFailure of %d bytes allocated %d bytes", len(b),
 			alloc)
